@@ -685,7 +685,7 @@ func c32ReadMeta(r *vkit.Run, s *c32Stream) {
 }
 
 func c32CheckStream(r *vkit.Run, s *c32Stream) {
-	r.Try(func() interface{} { return map[string]interface{}{"case": s} }, func() {
+	r.Try(func() interface{} { return s }, func() {
 		if s.Meta {
 			c32ReadMeta(r, s)
 		} else {
@@ -1077,7 +1077,7 @@ func c32(r *vkit.Run) {
 				r.Inconclusive(err.Error())
 				return
 			}
-			r.Try(func() interface{} { return map[string]interface{}{"case": c.witness()} }, func() { c32RoundTrip(r, &c) })
+			r.Try(func() interface{} { return c.witness() }, func() { c32RoundTrip(r, &c) })
 		} else {
 			var s c32Stream
 			if err := json.Unmarshal(w.Case, &s); err != nil {
@@ -1098,7 +1098,7 @@ func c32(r *vkit.Run) {
 		{{T: "headers", Stream: 1, Body: hexBytes{0x82}}, {T: "cont", Stream: 1, EndHeaders: true, Body: hexBytes{0x84}}},
 	} {
 		c := &c32Case{Ops: ops}
-		r.Try(func() interface{} { return map[string]interface{}{"case": c.witness()} }, func() { c32RoundTrip(r, c) })
+		r.Try(func() interface{} { return c.witness() }, func() { c32RoundTrip(r, c) })
 		r.Evals(1)
 	}
 	A := h2frame.Append
@@ -1135,7 +1135,7 @@ func c32(r *vkit.Run) {
 		if k%6 == 3 {
 			c.Ops = append(c.Ops, c32Op{T: "cont", Stream: 3, EndHeaders: true, Body: fill})
 		}
-		r.Try(func() interface{} { return map[string]interface{}{"case": c.witness()} }, func() { c32RoundTrip(r, c) })
+		r.Try(func() interface{} { return c.witness() }, func() { c32RoundTrip(r, c) })
 		r.Case(vkit.Hash64("max", fmt.Sprint(k)), true)
 	}
 	{ // one octet more must be refused by the writer without writing anything
@@ -1150,7 +1150,7 @@ func c32(r *vkit.Run) {
 	vkit.Parallel(n1, 0, func(i int) {
 		g := r.Rng("c32-ops", i)
 		c := &c32Case{Ops: c32GenOps(g, 1+g.Intn(12), true)}
-		r.Try(func() interface{} { return map[string]interface{}{"case": c.witness()} }, func() { c32RoundTrip(r, c) })
+		r.Try(func() interface{} { return c.witness() }, func() { c32RoundTrip(r, c) })
 		key := vkit.Hash64(fmt.Sprintf("%v", c.witness().Ops))
 		r.Case(key, len(c.Ops) >= 2)
 		if len(c.Ops) <= 3 && r.WantSample() {
